@@ -28,6 +28,7 @@ def dispatch (op : String) (j : Json) : Json :=
   | "keccak" => opKeccak j
   | "tx.sign" => opTxSign j
   | "tx.recover" => opTxRecover j
+  | "tx.judge" => opTxJudge j
   | "tx.decode1559" => opTxDecode1559 j
   | "eth.bigint" => opEthBigInt j
   | "eth.hexint" => opEthHexInt j
@@ -41,6 +42,7 @@ def dispatch (op : String) (j : Json) : Json :=
   | "abi.calldata" => opAbiCalldata j
   | "abi.event" => opAbiEvent j
   | "abi.error" => opAbiError j
+  | "abi.rawentry" => opAbiRawEntry j
   | "eip712.encode" => opEip712Encode j
   | "eip712.spec" => opEip712Spec j
   | "eip712.doc" => opEip712Doc j
